@@ -15,6 +15,8 @@ assignment, `if/else` (incl. `x is None`, truthiness of Optionals, `x and ...`),
 modelled primitives, `await` of `task_switch` / `asyncio.sleep(0)` / `_sleep_insert` (end of the
 synchronous prefix).  The C-task path (`c_task_reschedule`) is out of scope: a branch that calls it is
 translated to the error `cTaskNotModelled`.  Everything else raises Unsupported - loudly.
+An error carries the state at the moment of the `raise` (`.error (kind, s)`), so that a function which
+changes something and *then* refuses is not mistaken for one that refuses first.
 """
 import ast
 from pathlib import Path
@@ -115,10 +117,11 @@ class Fn:
         if isinstance(e, ast.BoolOp) and isinstance(e.op, ast.And):
             first, rest = e.values[0], e.values[1:]
             rest_e = rest[0] if len(rest) == 1 else ast.BoolOp(op=ast.And(), values=rest)
-            if isinstance(first, ast.Name) and first.id in env and env[first.id][0] in OPT_KINDS:
-                k, t = env[first.id]
-                v = self.new(first.id)
-                inner = self.cond(rest_e, {**env, first.id: (OPT_KINDS[k], v)})
+            fname = self.opt_name(first, env)
+            if fname:
+                k, t = env[fname]
+                v = self.new(fname)
+                inner = self.cond(rest_e, {**env, fname: (OPT_KINDS[k], v)})
                 return f"(match {t} with | none => false | some {v} => {inner})"
             return f"({self.cond(first, env)} && {self.cond(rest_e, env)})"
         if isinstance(e, ast.Name):
@@ -165,6 +168,16 @@ class Fn:
             return f"(s.tasks {env[e.value.id][1]}).mustCancel"
         raise Unsupported(f"condition {ast.dump(e)[:90]}")
 
+    @staticmethod
+    def opt_name(e, env):
+        """`x` or `x is not None` for an Optional local x -> its name"""
+        if isinstance(e, ast.Compare) and len(e.ops) == 1 and isinstance(e.ops[0], ast.IsNot) \
+                and _is_none(e.comparators[0]):
+            e = e.left
+        if isinstance(e, ast.Name) and e.id in env and env[e.id][0] in OPT_KINDS:
+            return e.id
+        return None
+
     def new(self, base):
         self.fresh += 1
         return f"{base}_{self.fresh}"
@@ -182,13 +195,15 @@ class Fn:
         p = ind
         if isinstance(st, ast.Expr) and isinstance(st.value, ast.Constant) and isinstance(st.value.value, str):
             return self.block(rest, env, ind)
+        if isinstance(st, ast.Pass):
+            return self.block(rest, env, ind)
         if isinstance(st, ast.Raise):
-            return f"{p}.error .{self.error_of(st)}"
+            return f"{p}.error (.{self.error_of(st)}, s)"
         if isinstance(st, ast.Return) and st.value is None and self.result == "state":
             return f"{p}.ok s"
         if isinstance(st, ast.Assert):
             return (f"{p}if {self.cond(st.test, env)} then\n{self.block(rest, env, ind + '  ')}\n"
-                    f"{p}else\n{p}  .error .assertion")
+                    f"{p}else\n{p}  .error (.assertion, s)")
         if isinstance(st, ast.If):
             return self.if_(st, rest, env, ind)
         if isinstance(st, (ast.Assign, ast.AnnAssign)):
@@ -241,10 +256,9 @@ class Fn:
             some_b, none_b = (then, other) if truthy else (other, then)
             return (f"{p}match {t} with\n{p}| none =>\n{self.block(none_b, env, ind + '  ')}\n"
                     f"{p}| some {v} =>\n{self.block(some_b, some_env, ind + '  ')}")
-        # x and rest  (x an Optional local): inside the body x is the value
-        if isinstance(test, ast.BoolOp) and isinstance(test.op, ast.And) and isinstance(test.values[0], ast.Name) \
-                and test.values[0].id in env and env[test.values[0].id][0] in OPT_KINDS:
-            name = test.values[0].id
+        # x and rest / x is not None and rest  (x an Optional local): inside the body x is the value
+        if isinstance(test, ast.BoolOp) and isinstance(test.op, ast.And) and self.opt_name(test.values[0], env):
+            name = self.opt_name(test.values[0], env)
             k, t = env[name]
             v = self.new(name)
             some_env = {**env, name: (OPT_KINDS[k], v)}
@@ -261,7 +275,7 @@ class Fn:
         if isinstance(tgt, ast.Tuple):
             if isinstance(value, ast.Call) and isinstance(value.func, ast.Name) \
                     and value.func.id == "c_task_reschedule":
-                return f"{p}.error .cTaskNotModelled   -- c_task_reschedule: out of scope"
+                return f"{p}.error (.cTaskNotModelled, s)   -- c_task_reschedule: out of scope"
             if isinstance(value, ast.Tuple) and len(value.elts) == len(tgt.elts):
                 vals = [self.val(v, env) for v in value.elts]       # evaluated before any binding
                 env2 = dict(env)
@@ -446,19 +460,19 @@ namespace Asynkit.Gen
 open Asynkit.Kernel
 
 /-- `scheduling._task_reinsert(loop, task, pos)` -/
-def taskReinsert (s : State) (task : TaskId) (pos : Nat) : Except ThrowErr State :=
+def taskReinsert (s : State) (task : TaskId) (pos : Nat) : Except (ThrowErr × State) State :=
 {reinsert}
 
 /-- `scheduling.task_switch(task, insert_pos)` up to its first suspension -/
-def taskSwitchPrefix (s : State) (task : TaskId) (insert_pos : Option Nat) : Except ThrowErr (State × Susp) :=
+def taskSwitchPrefix (s : State) (task : TaskId) (insert_pos : Option Nat) : Except (ThrowErr × State) (State × Susp) :=
 {switch}
 
 /-- `interrupt.task_throw(task, exception)`; the C-task path is not modelled -/
-def taskThrow (s : State) (task : TaskId) (exception : Exc) : Except ThrowErr State :=
+def taskThrow (s : State) (task : TaskId) (exception : Exc) : Except (ThrowErr × State) State :=
 {throw}
 
 /-- `interrupt.task_interrupt(task, exception)` up to its first suspension -/
-def taskInterruptPrefix (s : State) (task : TaskId) (exception : Exc) : Except ThrowErr (State × Susp) :=
+def taskInterruptPrefix (s : State) (task : TaskId) (exception : Exc) : Except (ThrowErr × State) (State × Susp) :=
 {intr}
 end Asynkit.Gen
 """
